@@ -23,7 +23,6 @@ package main
 // Everything generated is a pure function of (seed, tier).
 
 import (
-	"crypto/rand"
 	"crypto/sha1"
 	"encoding/base64"
 	"encoding/json"
@@ -35,6 +34,7 @@ import (
 	"sort"
 	"strings"
 	"sync"
+	"sync/atomic"
 	"testing"
 	"time"
 
@@ -60,7 +60,9 @@ var (
 	c01Dave    = vfIdentity{Sub: "u-dave", Email: "dave@evilexample.com", Groups: []string{"g1"}, PreferredUsername: "dave-pu"}
 )
 
-func c01IdentOf(id vfIdentity) c01Ident { return c01Ident{User: id.Sub, Email: id.Email, Groups: id.Groups} }
+func c01IdentOf(id vfIdentity) c01Ident {
+	return c01Ident{User: id.Sub, Email: id.Email, Groups: id.Groups}
+}
 
 // ---------------------------------------------------------------------------------------------------------
 // configurations
@@ -285,9 +287,10 @@ type c01Shared struct {
 	Stale      map[int]*c01Sess
 	staleReady time.Time
 	redisMu    sync.Mutex
+	sampleCtr  int64
 	statMu     sync.Mutex
 	kindStat   map[string]*[3]int64 // credential kind -> requests, served, refused
-	owned    map[string]bool
+	owned      map[string]bool
 }
 
 func c01SessionCookies(b *vfBrowser) [][2]string {
@@ -575,9 +578,9 @@ func c01Tamper(v string, part int, rng *mrand.Rand) (string, string) {
 	}
 }
 
-func c01RandB64(n int) string {
+func c01RandB64(rng *mrand.Rand, n int) string {
 	b := make([]byte, n)
-	_, _ = rand.Read(b)
+	_, _ = rng.Read(b)
 	return base64.URLEncoding.EncodeToString(b)
 }
 
@@ -646,9 +649,9 @@ func c01BuildCreds(run *vfRun, sh *c01Shared, cfg c01Cfg, idx int, p *vfProxy, r
 			add(&c01Cred{Kind: x[0], How: x[1], Cookies: ck(x[2]), Undecodable: true})
 		}
 	}
-	add(&c01Cred{Kind: "random", How: "random bytes in cookie format base64|now|base64(32 bytes)", Cookies: ck(c01RandB64(300) + "|" + nowTS + "|" + c01RandB64(32)), Undecodable: true})
+	add(&c01Cred{Kind: "random", How: "random bytes in cookie format base64|now|base64(32 bytes)", Cookies: ck(c01RandB64(rng, 300) + "|" + nowTS + "|" + c01RandB64(rng, 32)), Undecodable: true})
 	tick := base64.URLEncoding.EncodeToString([]byte("v2." + base64.RawURLEncoding.EncodeToString([]byte(c01CookieName+"-"+fmt.Sprintf("%032x", rng.Int63()))) + "." + base64.RawURLEncoding.EncodeToString(make([]byte, 16))))
-	add(&c01Cred{Kind: "random", How: "well-formed ticket text with a random signature", Cookies: ck(tick + "|" + nowTS + "|" + c01RandB64(32)), Undecodable: true})
+	add(&c01Cred{Kind: "random", How: "well-formed ticket text with a random signature", Cookies: ck(tick + "|" + nowTS + "|" + c01RandB64(rng, 32)), Undecodable: true})
 	for _, g := range []string{"x", "||", "a|b|c", "|" + nowTS + "|", "%41"} {
 		add(&c01Cred{Kind: "garbage", How: "literal cookie value " + g, Cookies: ck(g), Undecodable: true})
 	}
@@ -947,6 +950,9 @@ func (in *c01Inst) doAttempt(cred *c01Cred, sp c01Spec, id string, attempt int) 
 	}
 	run.Eval(cell)
 	run.Count("requests_"+class, 1)
+	if n := atomic.AddInt64(&sh.sampleCtr, 1); n%3989 == 1 {
+		run.Sample(wit()) // actual cases, spread over the run
+	}
 
 	if resp.Panic != "" {
 		c01Violation(run, "c01:panic", "request handling panicked: "+desc.String(), wit())
@@ -1070,7 +1076,6 @@ func (in *c01Inst) doAttempt(cred *c01Cred, sp c01Spec, id string, attempt int) 
 		c01Violation(run, "c01:refusal-shape", fmt.Sprintf("refused with status %d (expected 401, 403 or a redirect to the IdP): %s", resp.Code, desc.String()), wit())
 		return
 	}
-	run.SampleEvery(20011, func() interface{} { return wit() })
 }
 
 // c01Primary credentials get the full request matrix, the others a seeded sixth (quick) / half (thorough) of it.
